@@ -15,6 +15,12 @@ PROFILE = {'weights': {'rp_delete': 10, 'inv_delete': 8, 'inv_delete_all': 4, 'r
                        'rc_rename': 2},
            'n_rps': 6}
 
+CONSUMER_RACES = {'n_rps': 2, 'setup_ops': 16, 'existing_consumer_bias': 0.4, 'empty_bias': 0.2, 'model': False,
+                  'setup_weights': {'rp_delete': 0, 'alloc_put': 30, 'alloc_delete': 1, 'rc_rename': 0, 'rc_delete': 0, 'trait_delete': 0,
+                                    'rp_traits_set': 0, 'aggs_set': 0, 'rp_update': 0},
+                  'race_kinds': {'alloc_put': 8, 'alloc_post': 3, 'reshape': 1, 'alloc_delete': 3},
+                  'p_three': 0.0}
+
 RACES = {'n_rps': 6, 'setup_ops': 22, 'picker': 'tree', 'model': True,
          'scenarios': ['create-vs-delete', 'move-vs-delete', 'delete-vs-alloc', 'delete-vs-inv', 'delete-vs-traits',
                        'invdelete-vs-alloc', 'rcdelete-vs-inv', 'traitdelete-vs-use'],
@@ -31,6 +37,12 @@ def run(chk):
     # using the entity), every interleaving at transaction granularity on the real application, judged on the state
     # the schedule ends in and by the serial-order oracle
     conc.run_races(chk, ['C08'], 96 if chk.tier == 'quick' else 2000, 300, RACES)
+    # allocations must not outlive their consumer record either: writes racing for one consumer (new or existing), a DELETE
+    # against a write
+    # (judged on the final tables only - 'NOSERIAL': whether the STATUSES of such races are those of a serial order is the
+    # business of C06 / C07 / C12, e.g. a DELETE that read the allocations before a racing write emptied the consumer
+    # answers 204 where any serial order gives 404)
+    conc.run_races(chk, ['C08', 'NOSERIAL'], 64 if chk.tier == 'quick' else 1500, 120, CONSUMER_RACES)
     chk.cov['rule'] = ('random histories of 50 requests mixing creation, replacement and deletion of providers, inventories, '
                        'classes, traits, aggregates and allocations; joins evaluated on the real tables after every request; '
                        'distinct = (operation, status) pairs; plus every interleaving of deletion-versus-use request pairs')
